@@ -41,6 +41,35 @@ def patches_for(pid):
     return out
 
 
+class _deadline:
+    """per-variant time limit inside the self-tests: a rule that does not terminate on a changed tree is reported for that variant
+    (analysis-broken) instead of stalling the whole check; the outer budget of ./check is re-armed afterwards"""
+
+    def __init__(self, seconds):
+        self.seconds = seconds
+
+    def __enter__(self):
+        import signal
+        self.old_handler = signal.getsignal(signal.SIGALRM)
+        self.remaining = signal.alarm(0)
+
+        def _raise(signum, frame):
+            raise facts.AnalysisBroken('time limit of %d s for one variant exceeded' % self.seconds)
+        signal.signal(signal.SIGALRM, _raise)
+        signal.alarm(self.seconds)
+        self.t0 = __import__('time').time()
+        return self
+
+    def __exit__(self, *exc):
+        import signal
+        signal.alarm(0)
+        signal.signal(signal.SIGALRM, self.old_handler)
+        if self.remaining:
+            left = int(self.remaining - (__import__('time').time() - self.t0))
+            signal.alarm(max(1, left))
+        return False
+
+
 def baseline_keys(ctx):
     return {(o.rule, o.key) for o in ctx.obs if o.status == 'violation'}
 
@@ -60,9 +89,10 @@ def run(pid, ctx, repo=None):
                 results.append({'patch': name, 'status': 'skipped', 'why': 'does not apply to the current tree', 'expect': expect})
                 continue
             try:
-                db2 = facts.load(d)
-                c2 = core.Ctx(pid, 'quick', db2, scratch=True)
-                mod.run(c2)
+                with _deadline(240):
+                    db2 = facts.load(d)
+                    c2 = core.Ctx(pid, 'quick', db2, scratch=True)
+                    mod.run(c2)
                 new = [o for o in c2.obs if o.status == 'violation' and (o.rule, o.key) not in base]
                 broken = [m for m in c2.mins if m[1] < m[2]] + [c for c in c2.controls if not c[1]] + list(c2.broken)
                 fired = bool(new) or bool(broken)
@@ -117,9 +147,10 @@ def gm_control(pid, ctx, n=24, repo=None):
                     continue
                 name = 'gm/%s:%s@%s:%s' % (site['kind'], site['func'].replace('gdstk::', ''), os.path.basename(site['file']), site['line'])
                 try:
-                    db2 = facts.load(d)
-                    c2 = core.Ctx(pid, 'quick', db2, scratch=True)
-                    mod.run(c2)
+                    with _deadline(240):
+                        db2 = facts.load(d)
+                        c2 = core.Ctx(pid, 'quick', db2, scratch=True)
+                        mod.run(c2)
                     new = [o for o in c2.obs if o.status == 'violation' and (o.rule, o.key) not in base]
                     broken = [m for m in c2.mins if m[1] < m[2]] + [c for c in c2.controls if not c[1]] + list(c2.broken)
                     fired = bool(new) or bool(broken)
